@@ -29,10 +29,10 @@ def plan(tier, seed):
     units = []
     q = tier == 'quick'
     for op in sorted(OPS):
-        units.append({'kind': 'op', 'op': op, 'repeat': OPS[op].get('repeat_q' if q else 'repeat_t', 60 if q else 1000), 'weight': 3})
+        units.append({'kind': 'op', 'op': op, 'repeat': OPS[op].get('repeat_q' if q else 'repeat_t', 250 if q else 1000), 'weight': 3})
     for proto in ('tlcp', 'tls12', 'tls13'):
         for role in ('client', 'server'):
-            for mutual in ((True,) if q else (False, True)):
+            for mutual in (False, True):
                 units.append({'kind': 'handshake', 'proto': proto, 'role': role, 'mutual': mutual, 'weight': 8})
     return units
 
